@@ -26,10 +26,16 @@ type ipver struct {
 	// false and ips empty in this record: the model sees the meaning, the loader sees the file)
 	noEnable bool
 	noList   bool
+	// a file that cannot be loaded (a typo): the reload fails, the admitted set stays what it was,
+	// and the NEXT good version must still be picked up
+	broken bool
 }
 
 func yamlOf(v ipver) string {
 	var b strings.Builder
+	if v.broken {
+		return "enable: true\nip_white_list: [\"10.0.0.1\"\n"
+	}
 	if v.noEnable && v.noList {
 		return "# whitelist switched off\n"
 	}
@@ -123,7 +129,9 @@ func runWatcher(vs []ipver, methods []string, probes []string) sx.V {
 	f := filepath.Join(watchDir, "authip.yaml")
 	var last ipver
 	for i, v := range vs {
-		last = v
+		if !v.broken {
+			last = v
+		}
 		switch methods[i] {
 		case "inplace":
 			os.WriteFile(f, []byte(yamlOf(v)), 0o644)
@@ -262,10 +270,12 @@ func suiteAuthIp(c *Ctx) {
 		{{enable: true, ips: []string{"10.0.0.1"}}, {noEnable: true, ips: []string{"10.0.0.1"}}},
 		{{enable: true, ips: []string{"10.0.0.1", "10.0.0.2"}}, {enable: true, noList: true}},
 		{{enable: true, ips: []string{"10.0.0.3"}}, {noEnable: true, noList: true}},
+		{{enable: true, ips: []string{"10.0.0.1"}}, {broken: true}, {enable: true, ips: []string{"10.0.0.2"}}},
+		{{enable: true, ips: []string{"10.0.0.2"}}, {broken: true}, {broken: true}, {enable: false, ips: []string{"10.0.0.3"}}},
 	}
 	for i, vs := range wcorpus {
 		vs := vs
-		ms := []string{"inplace", []string{"inplace", "rename", "recreate"}[i%3]}
+		ms := []string{"inplace", []string{"inplace", "rename", "recreate"}[i%3], "rename", "inplace"}[:len(vs)]
 		c.Emit("authip", enc(vs[len(vs)-1:], plain), Safe(func() sx.V { return runWatcher(vs, ms, plain) }), "watch", "corpus", "key-left-out")
 	}
 	for i := 0; i < wn; i++ {
@@ -274,6 +284,10 @@ func suiteAuthIp(c *Ctx) {
 		var vs []ipver
 		var ms []string
 		for j := 0; j < k; j++ {
+			if j > 0 && r.Chance(25) { // a version with a typo in between
+				vs = append(vs, ipver{broken: true})
+				ms = append(ms, []string{"inplace", "rename", "recreate"}[(i+j+1)%3])
+			}
 			vs = append(vs, gen(r))
 			ms = append(ms, []string{"inplace", "rename", "recreate"}[(i+j)%3])
 		}
